@@ -118,74 +118,88 @@ Definition create_opt (o : option (list rec)) : option (list rec) :=
 Definition set_segs (d : disk) (segs : list mseg) : disk := mkDisk segs (d_orph d) (d_scr d) (d_hw d) (d_ep d).
 Definition set_scr (d : disk) (l : list scr) : disk := mkDisk (d_segs d) (d_orph d) l (d_hw d) (d_ep d).
 
-Definition apply_eff (d : disk) (e : eff) : disk :=
+(* effects on the segment files proper (everything but the .cleaned/.truncated scratch files) *)
+Inductive meff :=
+| MCreateLog (b : Z) | MCreateIdx (b : Z)
+| MAppendLog (b : Z) (rs : list rec) | MAppendIdx (b : Z) (rs : list rec)
+| MRemoveLog (b : Z) | MRemoveIdx (b : Z)
+| MSetLog (b : Z) (fl : list rec)      (* a file renamed over <b>.log *)
+| MSetIdx (b : Z) (fi : list rec)
+| MHw (h : Z) | MEpochs (c : epoch_cache).
+
+Definition with_main (d : disk) (segs : list mseg) (orph : list (Z * list rec)) : disk :=
+  mkDisk segs orph (d_scr d) (d_hw d) (d_ep d).
+
+Definition mapply (d : disk) (e : meff) : disk :=
   match e with
-  | FCreateLog (TMain b) =>
+  | MCreateLog b =>
     match seg_get (d_segs d) b with
     | Some _ => d
-    | None => mkDisk (seg_ins (d_segs d) (mkM (mkSeg b []) (orph_get (d_orph d) b))) (orph_del (d_orph d) b)
-                     (d_scr d) (d_hw d) (d_ep d)
+    | None => with_main d (seg_ins (d_segs d) (mkM (mkSeg b []) (orph_get (d_orph d) b))) (orph_del (d_orph d) b)
     end
-  | FCreateIdx (TMain b) =>
+  | MCreateIdx b =>
     match seg_get (d_segs d) b with
     | Some _ => set_segs d (seg_upd (d_segs d) b (fun m => mkM (m_seg m) (create_opt (m_idx m))))
     | None => match orph_get (d_orph d) b with
               | Some _ => d
-              | None => mkDisk (d_segs d) ((b, []) :: d_orph d) (d_scr d) (d_hw d) (d_ep d)
+              | None => with_main d (d_segs d) ((b, []) :: d_orph d)
               end
     end
-  | FAppendLog (TMain b) rs =>
-    set_segs d (seg_upd (d_segs d) b (fun m => mkM (mkSeg (m_base m) (m_recs m ++ rs)) (m_idx m)))
-  | FAppendIdx (TMain b) rs =>
-    set_segs d (seg_upd (d_segs d) b (fun m => mkM (m_seg m) (app_opt (m_idx m) rs)))
-  | FRemoveLog (TMain b) =>
+  | MAppendLog b rs => set_segs d (seg_upd (d_segs d) b (fun m => mkM (mkSeg (m_base m) (m_recs m ++ rs)) (m_idx m)))
+  | MAppendIdx b rs => set_segs d (seg_upd (d_segs d) b (fun m => mkM (m_seg m) (app_opt (m_idx m) rs)))
+  | MRemoveLog b =>
     match seg_get (d_segs d) b with
-    | Some m => mkDisk (seg_del (d_segs d) b)
-                       (match m_idx m with Some fi => (b, fi) :: d_orph d | None => d_orph d end)
-                       (d_scr d) (d_hw d) (d_ep d)
+    | Some m => with_main d (seg_del (d_segs d) b) (match m_idx m with Some fi => (b, fi) :: d_orph d | None => d_orph d end)
     | None => d
     end
-  | FRemoveIdx (TMain b) =>
+  | MRemoveIdx b =>
     match seg_get (d_segs d) b with
     | Some _ => set_segs d (seg_upd (d_segs d) b (fun m => mkM (m_seg m) None))
-    | None => mkDisk (d_segs d) (orph_del (d_orph d) b) (d_scr d) (d_hw d) (d_ep d)
+    | None => with_main d (d_segs d) (orph_del (d_orph d) b)
     end
-  | FCreateLog (TScr b s) =>
-    let x := scr_get (d_scr d) b s in set_scr d (scr_set (d_scr d) (mkScr b s (create_opt (sc_log x)) (sc_idx x)))
-  | FCreateIdx (TScr b s) =>
-    let x := scr_get (d_scr d) b s in set_scr d (scr_set (d_scr d) (mkScr b s (sc_log x) (create_opt (sc_idx x))))
-  | FAppendLog (TScr b s) rs =>
-    let x := scr_get (d_scr d) b s in set_scr d (scr_set (d_scr d) (mkScr b s (app_opt (sc_log x) rs) (sc_idx x)))
-  | FAppendIdx (TScr b s) rs =>
-    let x := scr_get (d_scr d) b s in set_scr d (scr_set (d_scr d) (mkScr b s (sc_log x) (app_opt (sc_idx x) rs)))
-  | FRemoveLog (TScr b s) =>
-    let x := scr_get (d_scr d) b s in set_scr d (scr_set (d_scr d) (mkScr b s None (sc_idx x)))
-  | FRemoveIdx (TScr b s) =>
-    let x := scr_get (d_scr d) b s in set_scr d (scr_set (d_scr d) (mkScr b s (sc_log x) None))
+  | MSetLog b fl =>
+    match seg_get (d_segs d) b with
+    | Some _ => set_segs d (seg_upd (d_segs d) b (fun m => mkM (mkSeg b fl) (m_idx m)))
+    | None => with_main d (seg_ins (d_segs d) (mkM (mkSeg b fl) (orph_get (d_orph d) b))) (orph_del (d_orph d) b)
+    end
+  | MSetIdx b fi =>
+    match seg_get (d_segs d) b with
+    | Some _ => set_segs d (seg_upd (d_segs d) b (fun m => mkM (m_seg m) (Some fi)))
+    | None => with_main d (d_segs d) ((b, fi) :: orph_del (d_orph d) b)
+    end
+  | MHw h => mkDisk (d_segs d) (d_orph d) (d_scr d) h (d_ep d)
+  | MEpochs c => mkDisk (d_segs d) (d_orph d) (d_scr d) (d_hw d) c
+  end.
+
+Definition scr_apply (d : disk) (b : Z) (s : suf) (f : scr -> scr) : disk :=
+  set_scr d (scr_set (d_scr d) (f (scr_get (d_scr d) b s))).
+
+Definition apply_eff (d : disk) (e : eff) : disk :=
+  match e with
+  | FCreateLog (TMain b) => mapply d (MCreateLog b)
+  | FCreateIdx (TMain b) => mapply d (MCreateIdx b)
+  | FAppendLog (TMain b) rs => mapply d (MAppendLog b rs)
+  | FAppendIdx (TMain b) rs => mapply d (MAppendIdx b rs)
+  | FRemoveLog (TMain b) => mapply d (MRemoveLog b)
+  | FRemoveIdx (TMain b) => mapply d (MRemoveIdx b)
+  | FCreateLog (TScr b s) => scr_apply d b s (fun x => mkScr b s (create_opt (sc_log x)) (sc_idx x))
+  | FCreateIdx (TScr b s) => scr_apply d b s (fun x => mkScr b s (sc_log x) (create_opt (sc_idx x)))
+  | FAppendLog (TScr b s) rs => scr_apply d b s (fun x => mkScr b s (app_opt (sc_log x) rs) (sc_idx x))
+  | FAppendIdx (TScr b s) rs => scr_apply d b s (fun x => mkScr b s (sc_log x) (app_opt (sc_idx x) rs))
+  | FRemoveLog (TScr b s) => scr_apply d b s (fun x => mkScr b s None (sc_idx x))
+  | FRemoveIdx (TScr b s) => scr_apply d b s (fun x => mkScr b s (sc_log x) None)
   | FRenameLog b s =>
-    let x := scr_get (d_scr d) b s in
-    match sc_log x with
+    match sc_log (scr_get (d_scr d) b s) with
     | None => d
-    | Some fl =>
-      let scr' := scr_set (d_scr d) (mkScr b s None (sc_idx x)) in
-      match seg_get (d_segs d) b with
-      | Some _ => mkDisk (seg_upd (d_segs d) b (fun m => mkM (mkSeg b fl) (m_idx m))) (d_orph d) scr' (d_hw d) (d_ep d)
-      | None => mkDisk (seg_ins (d_segs d) (mkM (mkSeg b fl) (orph_get (d_orph d) b))) (orph_del (d_orph d) b) scr' (d_hw d) (d_ep d)
-      end
+    | Some fl => scr_apply (mapply d (MSetLog b fl)) b s (fun x => mkScr b s None (sc_idx x))
     end
   | FRenameIdx b s =>
-    let x := scr_get (d_scr d) b s in
-    match sc_idx x with
+    match sc_idx (scr_get (d_scr d) b s) with
     | None => d
-    | Some fi =>
-      let scr' := scr_set (d_scr d) (mkScr b s (sc_log x) None) in
-      match seg_get (d_segs d) b with
-      | Some _ => mkDisk (seg_upd (d_segs d) b (fun m => mkM (m_seg m) (Some fi))) (d_orph d) scr' (d_hw d) (d_ep d)
-      | None => mkDisk (d_segs d) ((b, fi) :: orph_del (d_orph d) b) scr' (d_hw d) (d_ep d)
-      end
+    | Some fi => scr_apply (mapply d (MSetIdx b fi)) b s (fun x => mkScr b s (sc_log x) None)
     end
-  | FHw h => mkDisk (d_segs d) (d_orph d) (d_scr d) h (d_ep d)
-  | FEpochs c => mkDisk (d_segs d) (d_orph d) (d_scr d) (d_hw d) c
+  | FHw h => mapply d (MHw h)
+  | FEpochs c => mapply d (MEpochs c)
   | FPoint _ => d
   end.
 
